@@ -116,6 +116,11 @@ def step (st : State) (toks : List String) : State × String :=
         | .ok reg => registerTopology reg t
         | .error e => .error e) (.ok [] : Except Err (List Topo))
       exc r fun reg => "ok " ++ toString reg.length)
+  | "reghist" :: ns =>
+    -- a history of register_topology calls with rejected calls caught: what stays registered
+    (st, exc (collectTopos st ns) fun ts =>
+      let r := registerHistory ts
+      "kept " ++ toString r.1.length ++ " errs " ++ toString r.2)
   | "merge" :: ns =>
     (st, exc (collectTrees st ns) fun ts => showDict (createExpressions st.variant ts))
   | "collisions" :: ns =>
